@@ -71,6 +71,8 @@ def valid(name, sig, v):
     if name == 'mpf_sqrt': return v[fi[0]][0] >= 0
     return True
 
+PRAW_FNS = ('mpf_add', 'mpf_sub', 'mpf_mul', 'mpf_div', 'mpf_sqrt', 'mpf_add_ui', 'mpf_sub_ui', 'mpf_ui_sub', 'mpf_mul_ui', 'mpf_div_ui', 'mpf_ui_div')
+
 def specs(rng, tier, wid, nw, env):
     q = tier == 'quick'
     K = 12 if q else 200
@@ -79,6 +81,15 @@ def specs(rng, tier, wid, nw, env):
         for j in range(K):
             k += 1
             if k % nw == wid: yield ('alias', name, [list(c) for c in pat], rng.getrandbits(48))
+    # set_prec_raw-lowered (over-long) operands aliased with the destination: every size relation that decides whether a temporary copy is needed
+    for (name, pat) in TARGETS:
+        if name not in PRAW_FNS: continue
+        for low in (53, 128, 192):
+            for vn in (1, 2, 3):
+                for rel in range(10):
+                    for rep in range(5 if q else 20):
+                        k += 1
+                        if k % nw == wid: yield ('alias', name, [list(c) for c in pat], (low, vn, rel), rng.getrandbits(48))
     for grp in ('aors', 'logic', 'mul1', 'div1'):
         for n in range(1, 33 if q else 200):
             k += 1
@@ -86,7 +97,7 @@ def specs(rng, tier, wid, nw, env):
 
 def build(spec, env):
     if spec[0] == 'sweep': return sweep_case(spec[1], spec[2], spec[3], spec[4], 'C05')
-    _, name, pat, sd = spec
+    name, pat, sd = spec[1], spec[2], spec[-1]; forced = tuple(spec[3]) if len(spec) == 5 else None
     r = random.Random(sd); ret, sig = api.FNS[name]
     cls_of = {}
     for ci, c in enumerate(pat):
@@ -104,6 +115,28 @@ def build(spec, env):
     else:
         return None
     prec = r.choice(api.PRECS)
+    # mpf variables whose precision was lowered with mpf_set_prec_raw keep more limbs than prec+1 (the documented way to run the first Newton
+    # steps at low precision): destination == such a source, with the size relations that decide whether a temporary copy is needed (A54)
+    fpos = [i for i, ch in enumerate(sig) if ch in 'Ff']
+    praw = None
+    # only the functions that compute a fresh prec+1-limb result; the in-place forms of neg/abs/set/mul_2exp/div_2exp/trunc/ceil/floor just keep
+    # the limbs that are there (more than a distinct destination of the lowered precision would get), which is by design and not judged
+    if fpos and name in PRAW_FNS and (forced or r.random() < 0.3):
+        low = r.choice([53, 64, 128, 192, 256]); pl = max(2, (low + 127) // 64); vn = r.choice([1, 1, 2, 3, pl]); rel = r.randrange(10)
+        if forced: low, vn, rel = forced; pl = max(2, (low + 127) // 64)
+        n = [pl + 1, pl + 2, 2 * pl - 1, 2 * pl, 2 * pl + 1, 2 * pl + vn - 1, 2 * pl + vn, 2 * pl + vn + 1, 3 * pl, 3 * pl + vn][rel]
+        prec = 64 * (n + 1); praw = low
+        sizes = [n, vn, r.choice([1, pl, n])]
+        lowf = [i for i in fpos if sig[i] == 'f']
+        for i in fpos:
+            j_ = lowf.index(i) if i in lowf else 2
+            if len(lowf) == 1 and r.random() < 0.3: j_ = 1
+            sz = sizes[min(j_, 2)]; m_ = r.getrandbits(64 * sz) | (1 << (64 * sz - 1)) | 1
+            v[i] = (m_ * (r.choice([1, 1, -1]) if name != 'mpf_sqrt' else 1), -64 * sz + 64 * r.choice([0, 0, 1, -1, 3]))
+        for c in pat:
+            src = next((p_ for p_ in c if sig[p_].islower()), c[0])
+            for p_ in c: v[p_] = v[src]
+        if not valid(name, sig, v): return None
     def setup(varmap):
         cmds = []; done = set()
         for i, ch in enumerate(sig):
@@ -140,13 +173,27 @@ def build(spec, env):
             elif ch == 'Q': out += ['shrink N%s' % varmap[i][1:], 'shrink D%s' % varmap[i][1:]]
         return out
     seed_cmd = ['c gmp_randseed_ui R0 #%d' % (sd & 0xffffffff)] if 'R' in sig else []
-    c1 = setup(dist) + shrinks(dist) + seed_cmd; i1 = len(c1)
-    c2 = setup(al) + shrinks(al) + seed_cmd; i2 = len(c2)
-    cmds = c1 + [call(dist)] + c2 + [call(al)]
+    def lower(varmap):
+        return ['c mpf_set_prec_raw %s #%d' % (x, praw) for x in sorted({varmap[i] for i in fpos})] if praw else []
+    def restore(varmap):
+        return ['c mpf_set_prec_raw %s #%d' % (x, prec) for x in sorted({varmap[i] for i in fpos})] if praw else []
+    c1 = setup(dist) + shrinks(dist) + seed_cmd + lower(dist); i1 = len(c1)
+    c2 = restore(dist) + setup(al) + shrinks(al) + seed_cmd + lower(al); i2 = len(c2)
+    cmds = c1 + [call(dist)] + c2 + [call(al)] + restore(al)
     patkey = '|'.join('='.join(('w' if sig[p_].isupper() else 'r') + str(p_) for p_ in c) for c in pat)
     def check(rep, name=name, patkey=patkey):
         a, _ = split_reply(rep[i1]); b, _ = split_reply(rep[i1 + 1 + i2])
+        if a != b and praw and len(a) == len(b):
+            # over-long aliased operand: shortcuts such as x + 0 or the in-place forms legitimately keep more low limbs than a distinct
+            # destination of the lowered precision receives; accept exactly that (same exponent and sign, distinct result = leading limbs)
+            ok = True
+            for x, y in zip(a, b):
+                if x == y: continue
+                if not (x.startswith('F') and y.startswith('F')): ok = False; break
+                px, ex, sx, mx = x[1:].split(','); py, ey, sy, my = y[1:].split(',')
+                if not (ex == ey and (int(sx) < 0) == (int(sy) < 0) and abs(int(sy)) > abs(int(sx)) and my.startswith(mx)): ok = False; break
+            if ok: return None
         if a != b:
             return [('%s:aliased-differs-from-distinct:%s' % (name, patkey), 'args=%s distinct=%s aliased=%s' % ([str(x)[:50] for x in v], [t[:60] for t in a], [t[:60] for t in b]))]
     szs = tuple(min(gen.nlimbs(x), 48) for x in v if isinstance(x, int))
-    return Case(cmds, check, 2, (name, patkey, szs[:3]))
+    return Case(cmds, check, 2, (name, patkey, szs[:3], bool(praw)))
